@@ -64,6 +64,8 @@ def run_replay(rep):
         return oracle_text.c19_reader(rep["params"])
     if kind == "g28flags":
         return oracle_text.c19_g28(rep["params"])
+    if kind == "arcwords":
+        return oracle_text.c19_arc(rep["code"], rep["params"])
     if kind == "stream":
         v = oracle_text.c20_stream(cfg_of(rep), events_of(rep, "pre"), rep["lines"])
         return ["line %d: %s" % (i, m) for (i, m) in v]
